@@ -119,9 +119,10 @@ def run(ctx):
                 "NUL) are written with different data and must read back their own. distinct = (key, mode, operation)")
     ctx.assumptions = ["the cache directory's parent exists", "writes to pipes/eventfds/devices by the async runtimes "
                        "are not file-system mutations"]
-    keys = ["../../etc/passwd", "/abs/path", "a/b", "..", ".", "con", "x\x00y", "\x01\x1f", "k" * 65536, "café"]
+    keys = ["../../etc/passwd", "/abs/path", "a/b", "..", ".", "con", "x\x00y", "\x01\x1f", "k" * 65536, "café",
+            "da39a3ee5e6b4b0d3255bfef95601890afd80709", "ABCDEF0123456789abcdef0123456789ABCDEF01", "aa/bb/" + "c" * 36]
     keys = keys[:nkeys] + [rng.choice(gen.HOSTILE_KEYS) if rng.random() < 0.5 else gen.rand_unicode_key(rng)
-                           for _ in range(max(0, nkeys - 10))]
+                           for _ in range(max(0, nkeys - 13))]
     keys = list(dict.fromkeys(keys))
     total_calls = visible_calls = mutating_inside = 0
     for ki, key in enumerate(keys):
